@@ -14,7 +14,7 @@ pub enum LoopKind<'a> {
     For(&'a Pat, &'a Expr, &'a Block),
 }
 
-fn idents_in(ts: proc_macro2::TokenStream, out: &mut std::collections::BTreeSet<String>) {
+pub fn idents_in(ts: proc_macro2::TokenStream, out: &mut std::collections::BTreeSet<String>) {
     for t in ts {
         match t {
             proc_macro2::TokenTree::Ident(i) => {
@@ -94,7 +94,30 @@ pub fn tr_loop(cx: &mut Ctx, kind: LoopKind, rest: &[Stmt], k: &Cont) -> R<Tr> {
         1 => state[0].2.clone(),
         _ => Ty::Tuple(state.iter().map(|x| x.2.clone()).collect()),
     };
-    let state_ty_s = cx.lean_ty(&state_ty)?;
+    struct BreakFinder {
+        found: bool,
+        depth: usize,
+    }
+    impl<'ast> syn::visit::Visit<'ast> for BreakFinder {
+        fn visit_expr(&mut self, e: &'ast Expr) {
+            match e {
+                Expr::Break(_) if self.depth == 0 => self.found = true,
+                Expr::Closure(_) => {}
+                Expr::Loop(_) | Expr::While(_) | Expr::ForLoop(_) => {
+                    self.depth += 1;
+                    syn::visit::visit_expr(self, e);
+                    self.depth -= 1;
+                }
+                _ => syn::visit::visit_expr(self, e),
+            }
+        }
+    }
+    let mut bf = BreakFinder { found: false, depth: 0 };
+    syn::visit::Visit::visit_block(&mut bf, body);
+    let never_falls_through = matches!(kind, LoopKind::Loop(_)) && !bf.found;
+    // a `loop` without `break` never yields `LoopR.done`: in sampler code its payload type is `Unit`
+    // (as in the hand models), the state is still threaded through the recursive call
+    let state_ty_s = if never_falls_through && cx.rng_mode { "Unit".to_string() } else { cx.lean_ty(&state_ty)? };
     let mut binders = String::new();
     for (_, ln, ty) in &caps {
         binders.push_str(&format!(" ({} : {})", ln, cx.lean_ty(ty)?));
@@ -118,6 +141,9 @@ pub fn tr_loop(cx: &mut Ctx, kind: LoopKind, rest: &[Stmt], k: &Cont) -> R<Tr> {
     if cx.value_depth > 0 && !cx.loop_ctx.is_empty() && block_has_return(body) {
         return Err("return from a loop nested in a value block inside another loop".into());
     }
+    if !cx.prelude.is_empty() {
+        return Err("pending side effect in front of a loop".into());
+    }
     let saved_vd = cx.value_depth;
     cx.value_depth = 0;
     cx.loop_ctx.push(LoopCtx { state: state.clone(), call: rec_call.clone(), ret_ty: ret_ty_s.clone() });
@@ -136,7 +162,11 @@ pub fn tr_loop(cx: &mut Ctx, kind: LoopKind, rest: &[Stmt], k: &Cont) -> R<Tr> {
         let b = tr_stmts(cx, &body.stmts, &Cont::LoopNext)?;
         let inner = match cond {
             Some(c) => {
+                let n_pre = cx.prelude.len();
                 let ct = tr_expr(cx, c, Some(&Ty::Bool))?;
+                if cx.prelude.len() != n_pre {
+                    return Err("side effect in a `while` condition".into());
+                }
                 let names: Vec<String> = state.iter().map(|x| x.1.clone()).collect();
                 let tup = match names.len() {
                     0 => "()".to_string(),
@@ -147,6 +177,9 @@ pub fn tr_loop(cx: &mut Ctx, kind: LoopKind, rest: &[Stmt], k: &Cont) -> R<Tr> {
             }
             None => b.val(),
         };
+        if !cx.prelude.is_empty() {
+            return Err("side effect left pending at the end of a loop body".into());
+        }
         Ok(format!("{}{}", pre, inner))
     })();
     cx.scopes = saved;
@@ -189,33 +222,14 @@ pub fn tr_loop(cx: &mut Ctx, kind: LoopKind, rest: &[Stmt], k: &Cont) -> R<Tr> {
     };
     cx.aux_defs.push(def);
     // call site
-    struct BreakFinder {
-        found: bool,
-        depth: usize,
-    }
-    impl<'ast> syn::visit::Visit<'ast> for BreakFinder {
-        fn visit_expr(&mut self, e: &'ast Expr) {
-            match e {
-                Expr::Break(_) if self.depth == 0 => self.found = true,
-                Expr::Closure(_) => {}
-                Expr::Loop(_) | Expr::While(_) | Expr::ForLoop(_) => {
-                    self.depth += 1;
-                    syn::visit::visit_expr(self, e);
-                    self.depth -= 1;
-                }
-                _ => syn::visit::visit_expr(self, e),
-            }
-        }
-    }
-    let mut bf = BreakFinder { found: false, depth: 0 };
-    syn::visit::Visit::visit_block(&mut bf, body);
-    let never_falls_through = matches!(kind, LoopKind::Loop(_)) && !bf.found;
-    let r = if never_falls_through { Tr::new("panicV", Ty::Never) } else { tr_stmts(cx, rest, k)? };
+    // in a sampler the pair (panic value, random source) keeps the source of the call site
+    let panic_here = if cx.rng_mode && cx.value_depth == 0 && cx.loop_ctx.is_empty() { cx.with_outs("panicV") } else { "panicV".to_string() };
+    let r = if never_falls_through { Tr::new(panic_here.clone(), Ty::Never) } else { tr_stmts(cx, rest, k)? };
     let first_arg = if is_for { iter_tr.unwrap().s } else { LOOP_FUEL.to_string() };
     let st_args: String = state.iter().map(|s| format!(" {}", s.1)).collect();
     let direct = cx.loop_ctx.is_empty();
     let ret_v = if direct { "v_".to_string() } else if cx.value_depth > 0 { "panicV".to_string() } else { "(LoopR.ret v_)".to_string() };
-    let hang_v = if direct || cx.value_depth > 0 { "panicV".to_string() } else { "LoopR.hang".to_string() };
+    let hang_v = if direct || cx.value_depth > 0 { panic_here.clone() } else { "LoopR.hang".to_string() };
     let s = format!(
         "(match {name} (α := α) {fa}{caps}{st} with\n | LoopR.ret v_ => {rv}\n | LoopR.hang => {hv}\n | LoopR.done {tup} =>\n{rest})",
         name = name,
@@ -224,7 +238,8 @@ pub fn tr_loop(cx: &mut Ctx, kind: LoopKind, rest: &[Stmt], k: &Cont) -> R<Tr> {
         st = st_args,
         rv = ret_v,
         hv = hang_v,
-        tup = tup,
+        // a `loop` without `break` never yields `done`: in a sampler the panic pair keeps the source of the call site
+        tup = if never_falls_through && cx.rng_mode { "_".to_string() } else { tup },
         rest = r.val()
     );
     Ok(Tr::new(s, r.ty))
